@@ -32,6 +32,10 @@ def run(repo, R):
     R.rule("K", "contract K: (M_1, L_1, M_2, L_2)")
     R.rule("LIN", "primitives contracted once per shell with that shell's coefficients and primitive norms")
     R.rule("GATHER", "x, y, z factors selected with the shells' own component lists on the matching table axes")
+    R.rule("S0", "base entry of the shared overlap/moment table is the 1-D Gaussian product integral")
+    R.rule("Sa", "Obara-Saika step on the first index: M[i] = (P-A) M[i-1] + (i-1)/(2p) M[i-2]")
+    R.rule("Sb", "Obara-Saika step on the second index with the coupling i/(2p) M[i-1, j-1]")
+    R.rule("S-LEAD", "each table axis is incremented with one centre throughout")
     R.rule("MPT", "every return of the kernel passes through the recursion (no data-dependent shortcut)")
     from .mpt import must_pass_through
     must_pass_through(repo, R, repo.func(KIN))
@@ -46,7 +50,11 @@ def run(repo, R):
         if len(dsubs) != 1:
             raise AnalysisError("STENCIL", "the kinetic kernel does not reach the derivative table exactly once", f.where())
         info = check_diff_extractor(repo, dsubs[0], findings)
-        minfo = check_moment_kernel(repo, info["moment"].func, None, [], ex=info["moment"])
+        # the derivative table is built on the overlap table: every step of that table is part of the kinetic-energy formula too
+        minfo = check_moment_kernel(repo, info["moment"].func, None, findings, ex=info["moment"])
+        for s, name, _r in minfo["stores"]:
+            if not [fd for fd in findings if fd.store is s]:
+                R.ok(name, s.func.site, s.text, detail="conforms")
         roles = {k: v for k, v in minfo["axis_role"].items() if v in ("a", "b")}
         terms = terms_of_row_sum(ret.e)
         vecs = []
